@@ -264,6 +264,10 @@ def finish(mod, tier, seed, total, nshards, wall):
         e = findings[k]
         print(f"KNOWN-FINDING: property={mod.ID} {e['what']} (x{cnt}, e.g. {json.dumps(case, default=str)[:160]})")
         known_hit.append({"what": e["what"], "count": cnt})
+        # smallest witness of the listed finding, replayable with ./check replay (reports the raw verdict)
+        with open(os.path.join(OUT, "replays", f"KNOWN-{mod.ID}-{k}.json"), "w") as fh:
+            json.dump({"property": mod.ID, "sub": case.get("sub"), "cls": "known finding", "count": cnt, "case": case,
+                       "message": e["what"]}, fh, indent=1, default=str, ensure_ascii=True)
     cov = {
         "evaluations": total.evaluations,
         "distinct_nontrivial": len(total.sigs),
@@ -327,7 +331,8 @@ def replay_file(path):
         finally:
             load_findings().extend(_findings_backup)
         outs.append(sorted((k[0], k[1], v[2]) for k, v in acc.viol.items()))
-    if outs[0] != outs[1]:
+    # the verdict (sub-check, violation class) must reproduce; measured numbers inside a message may differ
+    if [x[:2] for x in outs[0]] != [x[:2] for x in outs[1]]:
         sys.stderr.write(f"MACHINERY-ERROR: nondeterministic replay {outs}\n")
         return 2
     if outs[0]:
